@@ -124,10 +124,21 @@ def render_const(op):
 
 
 class Table:
-    def __init__(self, prog, body, max_paths=50000, inline=None):
+    def __init__(self, prog, body, max_paths=50000, inline=0, _stack=(), start=0, stop=(), state=(), opaque=()):
+        """inline = n: calls of small loop-free functions / closures of the workspace are expanded up to n levels deep (their rows are
+        multiplied into the caller's paths, with the callee's parameters replaced by the caller's arguments); `bool::then_some` and
+        derived `PartialEq::eq` against an enum constant are modelled.  inline = 0 keeps every call opaque (the default)."""
         self.prog = prog
         self.body = body
         self.max_paths = max_paths
+        self.inline = inline or 0
+        self.opaque = tuple(opaque)      # short names of callees that are never expanded (the classified inputs of a table)
+        self._stack = _stack + (body.npath,)
+        # region tables: paths begin at block `start` and end at a return or on reaching a block in `stop` (e.g. a loop header: one
+        # iteration of the loop body); the result of such a path is the tuple of the values of the locals listed in `state`
+        self.start = start
+        self.stop = set(stop)
+        self.state = list(state)
         self.rows = []        # (constraints list, result)
         self.effects = []     # parallel to rows: [(canonical place, Val)] stores through references / upvars on that path
         self.calls = []       # parallel to rows: [(callee, [argument descriptions])] in path order
@@ -168,7 +179,118 @@ class Table:
                     break
             if v is not None:
                 return v
-        return Val("place", canon_place(self.body, pl, {}))
+        return Val("place", canon_place(self.body, pl, self._alias(pl, env)))
+
+    def _alias(self, pl, env):
+        """name the base local by what this path knows about it (an inlined call result keeps one name whether it is tested as a whole or through a projection)"""
+        ev = env.get(pl["l"])
+        if ev is not None and ev.kind in ("call", "place", "discr"):
+            return {pl["l"]: self._raw(ev)}
+        return {}
+
+    # ---- call models (only with inline > 0)
+    @staticmethod
+    def _raw(v):
+        """canonical text of a value as it would appear inside a constraint key"""
+        if v.kind == "place":
+            return v.a
+        if v.kind == "call":
+            return v.a[1]
+        if v.kind == "discr":
+            return v.a[0]
+        return vdesc(v)
+
+    def _subst_text(self, text, args):
+        import re as _re
+
+        def rep(m):
+            i = int(m.group(1))
+            return self._raw(args[i - 1]) if 1 <= i <= len(args) else m.group(0)
+        return _re.sub(r"\barg(\d+)\b", rep, text)
+
+    def _subst_val(self, v, args):
+        if v.kind == "const":
+            return v
+        if v.kind == "place":
+            m = __import__("re").match(r"^arg(\d+)$", v.a)
+            if m and 1 <= int(m.group(1)) <= len(args):
+                return args[int(m.group(1)) - 1]
+            return Val("place", self._subst_text(v.a, args))
+        if v.kind == "agg":
+            return Val("agg", (v.a[0], v.a[1], [self._subst_val(x, args) for x in v.a[2]]))
+        if v.kind == "call":
+            return Val("call", (v.a[0], self._subst_text(v.a[1], args)))
+        if v.kind == "discr":
+            return Val("discr", (self._subst_text(v.a[0], args), v.a[1]))
+        if v.kind == "bin":
+            return Val("bin", (v.a[0], self._subst_val(v.a[1], args), self._subst_val(v.a[2], args)))
+        if v.kind == "sym":
+            return Val("sym", self._subst_text(str(v.a), args))
+        return v
+
+    def _model_call(self, nm, args, t):
+        """[(extra constraints, result value, effects, calls)] alternatives for a call, or None to keep it opaque"""
+        short = nm.split("::")[-1]
+        # bool::then_some(c, v)
+        if short == "then_some" and "bool" in nm and len(args) == 2:
+            c, v = args
+            some = Val("agg", ("core::option::Option", "Some", [v]))
+            none = Val("agg", ("core::option::Option", "None", []))
+            if c.kind == "const" and isinstance(c.a, bool):
+                return [([], some if c.a else none, (), ())]
+            d = vdesc(c)
+            return [([("cond", d, ("not", 0))], some, (), ()), ([("cond", d, 0)], none, (), ())]
+        # derived PartialEq::eq against a unit enum constant
+        def const_variant(op, depth=0):
+            if op["k"] == "const":
+                return op.get("enum_variant")
+            if depth > 5 or op["place"]["p"] and any(pe["k"] != "deref" for pe in op["place"]["p"]):
+                return None
+            ds = [d for d in self.body.defs.get(op["place"]["l"], []) if d[0] in ("assign", "call")]
+            if len(ds) == 1 and ds[0][0] == "assign" and ds[0][3]["k"] == "assign":
+                rv = ds[0][3]["rv"]
+                if rv["k"] in ("use", "cast"):
+                    return const_variant(rv["op"], depth + 1)
+                if rv["k"] == "ref":
+                    return const_variant({"k": "copy", "place": rv["place"]}, depth + 1)
+            return None
+        cv = const_variant(t["args"][1]) if short in ("eq", "ne") and len(t["args"]) == 2 else None
+        if cv:
+            key = self._raw(args[0])
+            var = cv.split("::")[-1]
+            yes, no = Val("const", short == "eq"), Val("const", short != "eq")
+            return [([("is", key, var)], yes, (), ()), ([("not", key, (var,))], no, (), ())]
+        if nm in ("core::option::Option::is_some", "core::option::Option::is_none") and len(args) == 1:
+            a0 = args[0]
+            yes = nm.endswith("is_some")
+            if a0.kind == "agg" and a0.a[1] in ("Some", "None"):
+                return [([], Val("const", (a0.a[1] == "Some") == yes), (), ())]
+            key = self._raw(a0)
+            return [([("is", key, "Some")], Val("const", yes), (), ()), ([("is", key, "None")], Val("const", not yes), (), ())]
+        # small loop-free workspace function / closure
+        cb = self.prog.body(nm)
+        if short in self.opaque:
+            return None
+        if cb is None or cb.npath in self._stack or len(cb.loops()) or len(cb.blocks) > 80 or not cb.crate.startswith("pasfmt"):
+            return None
+        try:
+            sub = Table(self.prog, cb, max_paths=256, inline=self.inline - 1, _stack=self._stack, opaque=self.opaque)
+        except TooComplex:
+            return None
+        if not sub.rows or len(sub.rows) > 64:
+            return None
+        # closures called through Fn::call receive (closure, (args,)); direct calls of closure bodies do not occur in MIR: only fns reach here
+        out = []
+        for (cons, res), eff, calls in zip(sub.rows, sub.effects, sub.calls):
+            ec = []
+            for c in cons:
+                if c[0] == "cond":
+                    ec.append(("cond", self._subst_text(c[1], args), c[2]))
+                else:
+                    ec.append((c[0], self._subst_text(c[1], args), c[2]))
+            out.append((ec, self._subst_val(res, args), [(self._subst_text(k2, args), self._subst_val(v2, args)) for k2, v2 in eff],
+                        [(n2, tuple(self._subst_text(a2, args) for a2 in as2)) for n2, as2 in calls] + [(nm, tuple(vdesc(a) for a in args))]))
+        return out
 
     def _run(self):
         body = self.body
@@ -194,6 +316,12 @@ class Table:
             if count[0] > self.max_paths * 50:
                 raise TooComplex("too many steps in %s" % body.npath)
             env = dict(env)
+            if bb in self.stop and (onpath or bb != self.start):
+                vals = [env.get(l, Val("place", canon_local(body, l, {}))) for l in self.state]
+                rows.append((list(cons), Val("agg", ("state", "", vals))))
+                self.effects.append(list(env.get(("eff",), ())))
+                self.calls.append(list(env.get(("calls",), ())))
+                return
             blk = body.blocks[bb]
             for s in blk["stmts"]:
                 if s["k"] == "setdiscr":
@@ -213,7 +341,18 @@ class Table:
                     else:
                         v = Val("sym", "!%s" % vdesc(a))
                 elif k == "discr":
-                    v = Val("discr", (canon_place(body, rv["place"], {}), norm(rv.get("adt", ""))))
+                    v = None
+                    pl = rv["place"]
+                    adt = norm(rv.get("adt", ""))
+                    if pl["l"] in env and all(pe["k"] in ("deref",) for pe in pl["p"]):
+                        ev = env[pl["l"]]
+                        if ev.kind == "agg" and ev.a[1]:
+                            info = self.prog.adts.get(adt)
+                            dn = [vv["discr"] for vv in (info["variants"] if info else []) if vv["name"] == ev.a[1]]
+                            if dn:
+                                v = Val("const", int(dn[0]))
+                    if v is None:
+                        v = Val("discr", (canon_place(body, pl, self._alias(pl, env)), adt))
                 elif k == "aggregate":
                     fields = [self.val_of_operand(o, env) for o in rv["ops"]]
                     if rv.get("agg") == "adt":
@@ -230,11 +369,22 @@ class Table:
                         try:
                             r = {"Eq": a.a == b.a, "Ne": a.a != b.a, "Lt": a.a < b.a, "Le": a.a <= b.a,
                                  "Gt": a.a > b.a, "Ge": a.a >= b.a}.get(op)
+                            if r is None and isinstance(a.a, bool) and isinstance(b.a, bool):
+                                r = {"BitOr": a.a or b.a, "BitAnd": a.a and b.a, "BitXor": a.a != b.a}.get(op)
                         except TypeError:
                             r = None
                         v = Val("const", r) if r is not None else Val("bin", (op, a, b))
                     else:
-                        v = Val("bin", (rv["op"], a, b))
+                        op2 = rv["op"]
+                        cb = lambda x: x.kind == "const" and isinstance(x.a, bool)
+                        if op2 == "BitOr" and (cb(a) or cb(b)):
+                            c0, o0 = (a, b) if cb(a) else (b, a)
+                            v = Val("const", True) if c0.a else o0
+                        elif op2 == "BitAnd" and (cb(a) or cb(b)):
+                            c0, o0 = (a, b) if cb(a) else (b, a)
+                            v = o0 if c0.a else Val("const", False)
+                        else:
+                            v = Val("bin", (rv["op"], a, b))
                 elif k in ("ref", "rawptr"):
                     pl = rv["place"]
                     if pl["l"] in env and all(pe["k"] == "deref" for pe in pl["p"]):
@@ -273,6 +423,44 @@ class Table:
                 nm = norm(t.get("resolved") or t.get("callee") or "<fnptr>")
                 args = [self.val_of_operand(a, env) for a in t["args"]]
                 desc = "%s(%s)" % (nm.split("::")[-1], ",".join(vdesc(a) for a in args))
+                # a callee that receives `&mut local` may change it: forget what is known about that local
+                for a in t["args"]:
+                    if a["k"] in ("copy", "move") and not a["place"]["p"]:
+                        for d in body.defs.get(a["place"]["l"], []):
+                            if d[0] == "assign" and d[3]["k"] == "assign" and d[3]["rv"]["k"] in ("ref", "rawptr") and d[3]["rv"].get("mut"):
+                                tgt_l = d[3]["rv"]["place"]["l"]
+                                if tgt_l in env and not (1 <= tgt_l <= body.arg_count):
+                                    env = dict(env)
+                                    env.pop(tgt_l, None)
+                if self.inline and t["target"] is not None and not t["dst"]["p"]:
+                    alts = self._model_call(nm, args, t)
+                    if alts is not None:
+                        for extra_cons, val, eff, calls in alts:
+                            ok = True
+                            c2 = list(cons)
+                            for ec in extra_cons:
+                                if ec[0] in ("is", "not"):
+                                    if not feasible(c2, ec[1], ec[2] if ec[0] == "is" else None, set(ec[2]) if ec[0] == "not" else None):
+                                        ok = False
+                                        break
+                                    if ec not in c2:
+                                        c2.append(ec)
+                                else:
+                                    prev = [c for c in c2 if c[0] == "cond" and c[1] == ec[1]]
+                                    if prev and prev[0][2] != ec[2]:
+                                        ok = False
+                                        break
+                                    if not prev:
+                                        c2.append(ec)
+                            if not ok:
+                                continue
+                            e2 = dict(env)
+                            e2[("calls",)] = e2.get(("calls",), ()) + tuple(calls)
+                            if eff:
+                                e2[("eff",)] = e2.get(("eff",), ()) + tuple(eff)
+                            e2[t["dst"]["l"]] = val
+                            walk(t["target"], e2, c2, onpath | {bb})
+                        return
                 env[("calls",)] = env.get(("calls",), ()) + ((nm, tuple(vdesc(a) for a in args)),)
                 if not t["dst"]["p"]:
                     env[t["dst"]["l"]] = Val("call", (nm, desc))
@@ -331,7 +519,7 @@ class Table:
 
         import sys
         sys.setrecursionlimit(10000)
-        walk(0, {}, [], frozenset())
+        walk(self.start, {}, [], frozenset())
 
 
 def vdesc(v):
@@ -369,3 +557,73 @@ def render(v):
 def chain_of(cons, root_contains):
     """variant names of 'is' constraints on places whose canonical name contains root_contains, in order"""
     return [c[2] for c in cons if c[0] == "is" and root_contains in c[1]]
+
+
+class Unknown(Exception):
+    pass
+
+
+def split_call(x):
+    """'F(a,b)' -> ('F', ['a', 'b']) respecting nesting; None if x is not of that form"""
+    i = x.find("(")
+    if i <= 0 or not x.endswith(")"):
+        return None
+    name, body, args, depth, cur = x[:i], x[i + 1:-1], [], 0, ""
+    for ch in body:
+        if ch in "([{":
+            depth += 1
+        elif ch in ")]}":
+            depth -= 1
+        if ch == "," and depth == 0:
+            args.append(cur)
+            cur = ""
+        else:
+            cur += ch
+    args.append(cur)
+    return name, args
+
+
+def eval_desc(desc, env):
+    """Concrete value of a condition / value description (as produced by vdesc) under `env` (name -> int/bool).
+    Supports names, integers, char:N, True/False, !x, Eq/Ne/Lt/Le/Gt/Ge, BitAnd/BitOr/BitXor.  Raises Unknown otherwise."""
+    d = desc.strip()
+    if d.startswith("place:"):
+        d = d[6:]
+    if d in env:
+        return env[d]
+    if d in ("True", "False"):
+        return d == "True"
+    if d.startswith("char:"):
+        return int(d[5:])
+    if d.lstrip("-").isdigit():
+        return int(d)
+    if d.startswith("!"):
+        return not eval_desc(d[1:], env)
+    sc = split_call(d)
+    if sc and len(sc[1]) == 2 and sc[0] in ("Eq", "Ne", "Lt", "Le", "Gt", "Ge", "BitAnd", "BitOr", "BitXor"):
+        a, b = eval_desc(sc[1][0], env), eval_desc(sc[1][1], env)
+        return {"Eq": a == b, "Ne": a != b, "Lt": a < b, "Le": a <= b, "Gt": a > b, "Ge": a >= b,
+                "BitAnd": bool(a) and bool(b), "BitOr": bool(a) or bool(b), "BitXor": bool(a) != bool(b)}[sc[0]]
+    raise Unknown(desc)
+
+
+def run_concrete(table, env):
+    """The unique row of `table` whose constraints hold under env -> (result description, effects); raises Unknown if a
+    constraint cannot be evaluated or the number of matching rows is not one."""
+    hits = []
+    for (cons, res), eff in zip(table.rows, table.effects):
+        ok = True
+        for c in cons:
+            if c[0] != "cond":
+                raise Unknown("variant constraint %s" % (c,))
+            v = eval_desc(c[1], env)
+            v = int(v) if isinstance(v, bool) else v
+            if isinstance(c[2], tuple):
+                ok &= v not in c[2][1:]
+            else:
+                ok &= v == c[2]
+        if ok:
+            hits.append((res, eff))
+    if len(hits) != 1:
+        raise Unknown("%d rows match %s" % (len(hits), env))
+    return hits[0]
